@@ -23,6 +23,7 @@ struct Opts {
   bool priv_choice = true;
   std::vector<uint64_t> max_items = {1, 2, 3, 5, 7, 40, 10000};
   size_t pad_to = 0;             // >0: add filler Q/R records (long names) until the file is at least this long
+  const model::Preamble* preset = nullptr;   // use these block parameter sets instead of generating them
 };
 struct Result {
   std::string bytes;
@@ -43,9 +44,13 @@ inline Result make(vf::Chooser& c, const std::string& scratch, const Opts& o) {
   bo.full_hint_modes = o.hint_modes;
   bo.any_tps = o.any_tps;
   bo.max_items = o.max_items;
-  unsigned nsets = (unsigned)c.range(1, o.max_sets);
-  for (unsigned i = 0; i < nsets; i++) r.pre.bps.push_back(gen::gen_bp(c, bo));
-  if (o.priv_choice && c.coin()) r.pre.priv.set(c.range(0, 255));
+  unsigned nsets;
+  if (o.preset) { r.pre = *o.preset; nsets = (unsigned)r.pre.bps.size(); }
+  else {
+    nsets = (unsigned)c.range(1, o.max_sets);
+    for (unsigned i = 0; i < nsets; i++) r.pre.bps.push_back(gen::gen_bp(c, bo));
+    if (o.priv_choice && c.coin()) r.pre.priv.set(c.range(0, 255));
+  }
   CDNS::FilePreamble fp = adapt::lib_preamble(r.pre);
   static unsigned counter = 0;
   std::string path = scratch + "/fg" + std::to_string(counter++);
